@@ -21,12 +21,12 @@ import (
 // ---------------- C10 ----------------
 
 type c10Case struct {
-	Expiry   int64   `json:"expiry"`
-	TS       int64   `json:"block_ts"`
-	Window   int64   `json:"window"`
-	ChainOK  bool    `json:"chain_id_matches"`
-	NActions int     `json:"n_actions"`
-	MaxAct   uint8   `json:"max_actions"`
+	Expiry   int64      `json:"expiry"`
+	TS       int64      `json:"block_ts"`
+	Window   int64      `json:"window"`
+	ChainOK  bool       `json:"chain_id_matches"`
+	NActions int        `json:"n_actions"`
+	MaxAct   uint8      `json:"max_actions"`
 	Ranges   [][2]int64 `json:"action_ranges"`
 	AuthRng  [2]int64   `json:"auth_range"`
 }
